@@ -213,6 +213,16 @@ func CloneNode(node ast.Node) ast.Node {
 		}
 		return ast.NewRaw(ClonePosition(n.Position), n.Marker, n.Tag, text)
 
+	case *ast.Return:
+		var values []ast.Expression
+		if n.Values != nil {
+			values = make([]ast.Expression, len(n.Values))
+			for i, v := range n.Values {
+				values[i] = CloneExpression(v)
+			}
+		}
+		return ast.NewReturn(ClonePosition(n.Position), values)
+
 	case *ast.Select:
 		var text *ast.Text
 		if n.LeadingText != nil {
